@@ -72,3 +72,10 @@ void h_pop(void) { init_any(0); mpmc_lifo_node_t* r = mpmc_lifo_pop(&L); verif_s
 void h_push(void) { init_any(1); mpmc_lifo_push(&L, &MINE); verif_sync(-1);
   VASSERT(G.updates == 1, "H: push links its node in with exactly one successful CAS");
   VCANARY("push can return"); }
+/* init: from ANY memory content the stack starts empty with stamp 0 */
+void h_init(void) {
+  static mpmc_lifo_t X __attribute__((aligned(16))); memset(&X, (int)verif_u64(), sizeof(X));
+  mpmc_lifo_init(&X);
+  VASSERT(X.data.head == 0 && X.data.counter == 0, "H: C20 lifo init: empty, stamp 0, whatever the memory held");
+  VCANARY("lifo init can return");
+}
